@@ -194,7 +194,7 @@ def run(tier, seed):
         fl, ns = L.judge_counts(rr['cells'], rr['n'] - rr['nan'], p)
         probs, _ = L.cells_from_probe(p)
         tail_idx = len(p['t'])  # last cell = beyond the largest threshold
-        lawcov[c['fam']] = {'draws': rr['n'], 'cells': len(rr['cells']), 'statistics': ns, 'empty_cells': int(np.sum(np.array(rr['cells']) == 0)), 'stage1_flags': len(fl),
+        lawcov[c['fam']] = {'draws': rr['n'], 'cells': len(rr['cells']), 'statistics': ns, 'empty_cells': int(np.sum((np.array(rr['cells']) == 0) & (probs * rr['n'] >= 10))), 'stage1_flags': len(fl),
                             'min': rr['min'], 'max': rr['max'], 'nan': rr['nan'], 'pinf': rr['pinf'], 'ninf': rr['ninf'],
                             'kolmogorov_resolution': S.dkw_bound(rr['n'], S.ALPHA1)}
         # count of draws beyond R (tail branch)
